@@ -152,6 +152,53 @@ def hostile_header_lists(role):
     return out
 
 
+def dyn_block(headers):
+    """(encoder-stream bytes incl. the capacity instruction, header block that REFERENCES the inserted
+    entries): genuine pylsqpack.Encoder output — the second encoding of a header list inserts and refers"""
+    import pylsqpack
+    enc = pylsqpack.Encoder()
+    setb = enc.apply_settings(4096, 16)
+    e1, _ = enc.encode(0, headers)
+    e2, blk = enc.encode(4, headers)
+    d = pylsqpack.Decoder(4096, 16)
+    try:
+        d.feed_header(0, blk)
+        blocked = False
+    except pylsqpack.StreamBlocked:
+        blocked = True
+    assert blocked, "block does not need the encoder stream"
+    return setb + e1 + e2, blk
+
+
+def blocked_families(r, role):
+    """streams whose HEADERS / trailers / PUSH_PROMISE / push-stream HEADERS wait for the QPACK encoder stream,
+    for both roles (also the paths that are errors for the role): name -> {stream id: bytes}"""
+    ctrl, encs = (3, 7) if role else (2, 6)
+    uni = 15 if role else 14
+    first = [(b":status", b"200"), (b"x-dyn-a", b"v" * 24)] if role else \
+        [(b":method", b"GET"), (b":scheme", b"https"), (b":authority", b"a"), (b":path", b"/"), (b"x-dyn-a", b"v" * 24)]
+    pp = [(b":method", b"GET"), (b":scheme", b"https"), (b":authority", b"a"), (b":path", b"/p"), (b"x-dyn-p", b"w" * 24)]
+    ENC_H, BLK_H = dyn_block(first)
+    ENC_T, BLK_T = dyn_block([(b"x-dyn-t", b"t" * 24)])
+    ENC_P, BLK_P = dyn_block(pp)
+    plain = g.frame(1, g.qpack_literal_block([(b":status", b"200")] if role else
+                                             [(b":method", b"GET"), (b":scheme", b"https"), (b":authority", b"a"),
+                                              (b":path", b"/")]))
+    CTRL = b"\x00" + g.frame(4, g.varint(1) + g.varint(4096) + g.varint(7) + g.varint(16))
+    fam = {
+        "headers": {ctrl: CTRL, encs: b"\x02" + ENC_H, 0: g.frame(1, BLK_H) + g.frame(0, b"body")},
+        "headers-only": {ctrl: CTRL, encs: b"\x02" + ENC_H, 0: g.frame(1, BLK_H)},
+        "trailers": {ctrl: CTRL, encs: b"\x02" + ENC_T, 0: plain + g.frame(0, b"ab") + g.frame(1, BLK_T)},
+        "push-promise": {ctrl: CTRL, encs: b"\x02" + ENC_P, 0: plain + g.frame(5, b"\x02" + BLK_P) + g.frame(0, b"ab")},
+        "push-promise-first": {ctrl: CTRL, encs: b"\x02" + ENC_P, 0: g.frame(5, b"\x01" + BLK_P) + plain},
+        "push-stream": {ctrl: CTRL, encs: b"\x02" + ENC_H, uni: b"\x01\x03" + g.frame(1, BLK_H) + g.frame(0, b"pushed")},
+        "push-stream-trailers": {ctrl: CTRL, encs: b"\x02" + ENC_T,
+                                 uni: b"\x01\x03" + plain + g.frame(0, b"x") + g.frame(1, BLK_T)},
+        "two-streams": {ctrl: CTRL, encs: b"\x02" + ENC_H, 0: g.frame(1, BLK_H) + g.frame(0, b"a"), 4: g.frame(1, BLK_H)},
+    }
+    return fam
+
+
 def deliveries_for(r, sid, b, fin, mode):
     if mode == "whole":
         return [(sid, b, fin)]
@@ -207,7 +254,7 @@ def main(tier):
         reported.add(key)
         ctx.witness(
             f"{cls} escapes {layer}.handle_event (raised in {fn}): {e!s:.120}",
-            {"ops": ops, "impl_output": outs},
+            {"ops": ops, "impl_output": outs, "h0_logging": bool(H3Impl.h0_logging)},
             {"exception": cls, "function": fn})
 
     def run(batch, ops, layer="H3Connection", nontrivial=True):
@@ -236,16 +283,15 @@ def main(tier):
             new_line = f"h3.new {role} {logging} {r.choice([0, 1])} {quirks}"
             # control stream
             for c in control_cases(r, qb):
-                for mode in modes[: 2 if logging else len(modes)]:
+                for mode in modes:
                     dl = deliveries_for(r, ctrl_sid, b"\x00" + c, False, mode)
                     run(batch, [new_line] + [f"h3.data {s} {g.hx(d)} {1 if f else 0}" for s, d, f in dl])
                     n += 1
             # request streams
             for c in request_cases(r, qb, role):
                 for pname, pre in prefixes.items():
-                    if logging and pname != "settings":
-                        continue
-                    for mode in modes[: 1 if (logging or pname == "none") else len(modes)]:
+                    # logger-on: every chunking after SETTINGS, one delivery after the other prefixes
+                    for mode in modes[: 1 if (pname == "none" or (logging and pname != "settings")) else len(modes)]:
                         fin = r.random() < 0.5
                         dl = pre + deliveries_for(r, r.choice([0, 4, 1]), c, fin, mode)
                         run(batch, [new_line] + [f"h3.data {s} {g.hx(d)} {1 if f else 0}" for s, d, f in dl])
@@ -277,8 +323,8 @@ def main(tier):
                 paths["push-stream"] = (15, b"\x01\x01" + g.frame(1, blk) + g.frame(0, b"a"))
                 paths["push-stream-trailers"] = (15, b"\x01\x01" + ok_first + g.frame(1, only))
             for pname, (sid, data) in paths.items():
-                for logging in ((0, 1) if len(data) < 3000 else (r.choice([0, 1]),)):
-                    for mode in ("whole", "random"):
+                for logging in (0, 1):
+                    for mode in (("whole", "random") if len(data) < 3000 or not logging else ("whole",)):
                         fin = r.random() < 0.5
                         dl = deliveries_for(r, sid, data, fin, mode)
                         run(batch, [f"h3.new {role} {logging} 0 {quirks}"] +
@@ -298,12 +344,53 @@ def main(tier):
                     order += deliveries_for(r, 0, req, fin, r.choice(modes))
                     order += deliveries_for(r, 7, ENC, False, r.choice(modes))
                     order += [(0, b"", True)] if not fin else []
-                    run(batch, [f"h3.new 1 {r.choice([0, 1])} 0 {quirks}"] +
-                        [f"h3.data {s} {g.hx(d)} {1 if f else 0}" for s, d, f in order])
+                    for logging in (0, 1):
+                        run(batch, [f"h3.new 1 {logging} 0 {quirks}"] +
+                            [f"h3.data {s} {g.hx(d)} {1 if f else 0}" for s, d, f in order])
+    # genuine dynamic-table references on every header path, both roles, BOTH logger configurations:
+    # stream before the encoder stream (blocks, resumed with frame_data=None), encoder stream first,
+    # and random chunking + interleaving
+    blocked_runs = 0
+    for role in (0, 1):
+        for fname, streams in blocked_families(r, role).items():
+            uni_ids = sorted(s_ for s_ in streams if s_ % 4 >= 2)
+            data_ids = sorted(s_ for s_ in streams if s_ % 4 < 2 or s_ in (14, 15))
+            setup_ids = [s_ for s_ in uni_ids if s_ not in data_ids]
+            ctrl_id, enc_id = setup_ids[0], setup_ids[1]
+            orders = []
+            whole = {s_: [(s_, streams[s_], s_ % 4 < 2 or (s_ in (14, 15) and fin_u))] for fin_u in (True,) for s_ in streams}
+            # 1. data streams first (they block), then control + encoder
+            orders.append([d for s_ in data_ids for d in whole[s_]] + whole[ctrl_id] + whole[enc_id])
+            # 2. control, data, encoder
+            orders.append(whole[ctrl_id] + [d for s_ in data_ids for d in whole[s_]] + whole[enc_id])
+            # 3. everything the decoder needs first
+            orders.append(whole[ctrl_id] + whole[enc_id] + [d for s_ in data_ids for d in whole[s_]])
+            # 4. blocked, FIN delivered alone after the unblocking
+            o4 = whole[ctrl_id] + [(s_, streams[s_], False) for s_ in data_ids] + whole[enc_id]
+            orders.append(o4 + [(s_, b"", True) for s_ in data_ids])
+            # 5. encoder stream byte by byte after the data
+            orders.append(whole[ctrl_id] + [d for s_ in data_ids for d in whole[s_]] +
+                          deliveries_for(r, enc_id, streams[enc_id], False, "bytes"))
+            for _ in range(12 if thorough else 4):
+                queues = {s_: deliveries_for(r, s_, streams[s_], s_ in data_ids, "random") for s_ in streams}
+                live, o = sorted(queues), []
+                while live:
+                    s_ = r.choice(live)
+                    o.append(queues[s_].pop(0))
+                    if not queues[s_]:
+                        live.remove(s_)
+                orders.append(o)
+            for o in orders:
+                for logging in (0, 1):
+                    run(batch, [f"h3.new {role} {logging} 0 {quirks}"] +
+                        [f"h3.data {s_} {g.hx(d)} {1 if f else 0}" for s_, d, f in o])
+                    blocked_runs += 1
+    ctx.notes["blocked_header_path_runs"] = blocked_runs
     # random soup: several streams, random frames, random order
     for _ in range(30000 if thorough else 400):
         role = r.choice([0, 1])
-        ops = [f"h3.new {role} {r.choice([0, 0, 1])} {r.choice([0, 1])} {quirks}"]
+        dg = r.choice([0, 1])
+        ops = [f"h3.new {role} 0 {dg} {quirks}"]
         sids = [0, 4, 2 + role, 6 + role, 10 + role, 14 + role, 1]
         for _ in range(r.randrange(1, 10)):
             sid = r.choice(sids)
@@ -321,6 +408,7 @@ def main(tier):
             else:
                 ops.append(f"h3.data {sid} {g.hx(d)} {1 if r.random() < 0.15 else 0}")
         run(batch, ops)
+        run(batch, [f"h3.new {role} 1 {dg} {quirks}"] + ops[1:])   # the same bytes with a qlog trace attached
     batch.finish()
     ctx.notes["h3_cases"] = len(batch.cases)
     ctx.sample({"h3": batch.cases[len(batch.cases) // 2][:4]})
@@ -330,7 +418,8 @@ def main(tier):
     h0q = "1" if any(k.get("id") == "C16-h0-request-line" for k in core.load_known("C16") if k.get("status") == "finding") else "0"
     lines = [b"GET /\r\n", b"GET\r\n", b"\r\n", b"", b" ", b"GET  /a b\r\n", b"GET /", b"GET", b"\x00\xff", b" /x\r\n", b"GET /\r", b"\n",
              b"POST /a\r\n\r\n", b"GET /" + bytes(range(256)) + b"\r\n", b"\t\x0b\x0c \r\n"]
-    for cl in (0, 1):
+    for h0log, cl in ((False, 0), (False, 1), (True, 0), (True, 1)):
+        H3Impl.h0_logging = h0log     # the same families with a qlog trace attached to the connection
         for ln in lines:
             for sid in (0, 4, 1, 2, 3):
                 for fin in (0, 1):
@@ -340,12 +429,14 @@ def main(tier):
                         k = r.randrange(1, len(ln))
                         run(batch, [f"h0.new {cl} {h0q}", f"h0.data {sid} {g.hx(ln[:k])} 0", f"h0.data {sid} {g.hx(ln[k:])} {fin}",
                                     f"h0.data {sid} - 1"], layer="H0Connection")
-    for _ in range(20000 if thorough else 300):
+    for k in range(20000 if thorough else 300):
+        H3Impl.h0_logging = bool(k % 2)
         ops = [f"h0.new {r.choice([0, 1])} {h0q}"]
         for _ in range(r.randrange(1, 6)):
             d = bytes(r.choice([0x20, 0x0d, 0x0a, 0x47, 0x2f, 0x00, 0xff, 0x09]) for _ in range(r.randrange(0, 6)))
             ops.append(f"h0.data {r.choice([0, 0, 4, 8, 1])} {g.hx(d)} {r.choice([0, 0, 1])}")
         run(batch, ops, layer="H0Connection")
+    H3Impl.h0_logging = False
     batch.finish()
     ctx.sample({"h0": batch.cases[3]})
 
@@ -436,13 +527,23 @@ def main(tier):
     batch.finish()
 
     ctx.cov["rule"] = (
-        "as client and server, with and without qlog: control stream with every SETTINGS payload shape (empty, "
+        "EVERY family below is run in BOTH logger configurations (quic_logger None / a real QuicLoggerTrace attached to "
+        "the connection, so each `if self._quic_logger is not None:` block executes on the same bytes; the H3Parser "
+        "model keeps of the logger only the strict utf-8 decoding of header lists (`logStep`/`logOk`), everything else "
+        "in those blocks (length computations, encoders) is covered by the exception oracle of the logger-on runs, the "
+        "model correspondence holds for both configurations; h0/connection.py reads no logger, its families are "
+        "nevertheless run with one attached). "
+        "As client and server: control stream with every SETTINGS payload shape (empty, "
         "truncated pair, truncated varint, reserved/duplicate ids, boolean settings out of range, datagram/"
         "webtransport dependencies, huge values) alone and after a valid SETTINGS; every frame type x payload shape "
         "(empty, truncated varint, huge length, valid/invalid/truncated QPACK, dynamic-table reference) on control, "
         "request, push streams, before and after valid prefixes, whole / byte-at-a-time / random chunkings; "
         "MAX_PUSH_ID payloads; unidirectional streams of every type incl. duplicates and FIN on critical streams; "
-        "blocked HEADERS/PUSH_PROMISE resumed by the encoder stream with tails and FIN; datagrams; random frame soup; "
+        "blocked HEADERS/PUSH_PROMISE resumed by the encoder stream with tails and FIN; genuine dynamic-table "
+        "references (pylsqpack.Encoder output) on HEADERS, trailers, PUSH_PROMISE, push-stream HEADERS and trailers, two "
+        "streams at once, for BOTH roles (also where the path is an error for the role), delivered before the encoder "
+        "stream (blocked, resumed with frame_data=None), after it, with the FIN alone, encoder stream byte by byte, and "
+        "randomly chunked + interleaved; datagrams; random frame soup; "
         "HTTP/0.9 request lines (no space, only whitespace, split across deliveries, FIN); every close reason the "
         "HTTP/3 layer produced replayed on a real handshaken QuicConnection pair (close + datagrams_to_send) and the "
         "close-frame capacity arithmetic against the real packet builder. Non-trivial = every case (each is a "
@@ -475,6 +576,7 @@ def replay(path):
         elif not out:
             problem = "no closing datagram produced"
     else:
+        H3Impl.h0_logging = bool(rp.get("h0_logging", False))
         outs, mlines, impl, done = g.run_case(H3Impl, [g.strip_answers(o) for o in rp["ops"]])
         if outs and outs[-1].startswith("err ") and impl.last_exc is not None:
             e, fn = impl.last_exc
